@@ -54,6 +54,17 @@ def run(tier):
         samples.extend(r.samples[:1])
     if tot.get("c09.clock.histories", 0) < 20000 or tot.get("c09.clock.ops_with_counter_beyond_16_bits", 0) < 100000:
         v.inconclusive_because("clock histories too few: %r" % {k: n for k, n in tot.items() if k.startswith("c09.clock")})
+    # lookups in large UNSORTED registries (both full shipped registries reversed and shuffled: the linear-search path with
+    # more than 255 entries) and in small ones, through the step-counting / bounds-recording registry monitor of the C10
+    # driver: only non-termination and out-of-registry reads are read here (wrong results are C10's subject)
+    regexe = build(VERIF / "native" / "registry.cpp", "sanrec")
+    r = run_shards(regexe, [["--mode", "c10", "--maxsize", 4, "--seed", seed, "--shard", "%d/%d" % (i, N)] for i in range(N)], san="rec", timeout=3000)
+    r.witnesses = [dict(w, key=w["key"].replace("c10:", "c09:registry-")) for w in r.witnesses if "terminate" in w.get("key", "") or "outside" in w.get("key", "")]
+    v.absorb(r, "registry-lookups")
+    tot["registry.full_unsorted_registries"] = r.counters.get("c10.full_unsorted_registries", 0)
+    tot["registry.name_lookups"] = r.counters.get("c10.name_lookups", 0)
+    if tot["registry.full_unsorted_registries"] < 2:
+        v.inconclusive_because("no large unsorted registries were looked up")
     # the value-type sweeps of the calendar driver at the int32 edge, under sanitizers
     cal = build(VERIF / "native" / "calendar.cpp", "sanrec")
     r = run_shards(cal, [["--mode", "c06secs", "--stride", 99991 if q else 9973, "--edge", "--shard", "%d/%d" % (i, N)] for i in range(N)],
